@@ -77,6 +77,36 @@ reg("C19",
     "Not generated: booleans, falsy TRANSPORT_TYPE, non-string IPs other than None, APPLICATIONS shape errors.",
     "property-based testing with a validity-classifying generator (Hypothesis)", "DESIGN.md#c19")
 
+reg("C12",
+    "Property-based test over every typed request/answer pair (C09 argument generator) x Result-Code (library constants, random and "
+    "boundary codes; exhaustive 1001..5999 sweep on one pair in quick, six in thorough) x {Result-Code, Experimental-Result, both} x "
+    "{request as built, as decoded}, through decorate_answer and through callback_route with an in-process Worker; the sent message "
+    "is read with the reference decoder.",
+    "Trusted: reference decoder; in-process Worker with a fake multiprocessing manager. Handler answers are freshly constructed "
+    "typed answers; multiples of 1000 are not generated.",
+    "property-based testing + exhaustive code sweep, reference-decoded output", "DESIGN.md#c12")
+reg("C13",
+    "Property-based test over generated route tables (1-3 applications x command codes, shared codes), requests (registered and "
+    "unregistered pairs, built and decoded) and handler outcomes (answer, None, wrong types, standard exceptions) on a real Bromelia "
+    "object with in-process Workers; handler invocations are logged and every worker's send queue is read with the reference decoder.",
+    "Trusted: reference decoder; the fake manager (thread primitives instead of multiprocessing proxies; the lock never blocks so a "
+    "second send is observable instead of deadlocking).",
+    "property-based testing of dispatch against a logging harness (Hypothesis)", "DESIGN.md#c13")
+reg("C15",
+    "Property-based test with a harness-owned random source: bromelia.base.os.urandom is replaced by a generated low-entropy sequence "
+    "(1-3 distinct values, adversarial repeats) followed by fresh values; creation histories mix generic/typed header-less requests, "
+    "explicit-header requests, answers and generic messages; identifiers must be pairwise distinct and explicit-header objects must "
+    "consume nothing.",
+    "Trusted: the substituted source. Sequential histories only in this round; the concurrent clause (threads racing in the draw "
+    "loop) is not decided yet.",
+    "property-based testing with an adversarial random source (Hypothesis)", "DESIGN.md#c15")
+reg("C16",
+    "Model-based history test under a virtual clock: generated histories of Session-Id generation (AVP from identity, typed message, "
+    "Acct-Multi-Session-Id, bulk origin updates that switch identity, bytes input) with 0/1/1000 s ticks, many ids per clock second; "
+    "all ids must be pairwise distinct and match identity;high32;low32[;optional].",
+    "Trusted: the substituted datetime module in bromelia._internal_utils; SessionHandler.reset() at history start models process start.",
+    "stateful property-based testing with a virtual clock (Hypothesis)", "DESIGN.md#c16")
+
 ALL = [f"C{i:02d}" for i in range(1, 21)]
 
 def main():
